@@ -308,6 +308,18 @@ def r11_4(run):
     ok = any(callee_attr(c) == 'add_event_listener' and c.args and const(c.args[0]) == 'CONF_CHANGED' and dotted(c.args[1]) == 'self._conf_changed' for c in calls_in(bs))
     run.ob('R11.4', bs, bs.node, 'bootstrap subscribes _conf_changed to CONF_CHANGED', ok, slot='subscribe', message='bootstrap does not subscribe to CONF_CHANGED')
     names = [dotted(c.args[0]) for c in calls_in(bs) if callee_attr(c) in ('addCallback',) and c.args]
+    if 'self._do_setup' not in names:
+        # not a callback chain here: the same order written as a coroutine (yield self._do_setup(...) before do_post_bootstrap), possibly
+        # in a helper bootstrap hands the listing to
+        seq = []
+        for u_ in [bs] + [m for m in TC(run).methods.values() if m is not bs and any(dotted(c.func) == 'self.' + m.name or (c.args and dotted(c.args[0]) == 'self.' + m.name) for c in calls_in(bs))]:
+            for n_ in walk_unit(u_):
+                if isinstance(n_, ast.Call) and dotted(n_.func) in ('self._do_setup', 'self.do_post_bootstrap'):
+                    seq.append((n_.lineno, dotted(n_.func), isinstance(getattr(n_, '_parent', None), ast.Yield)))
+        seq.sort()
+        fs = [f for _, f, _ in seq]
+        if 'self._do_setup' in fs and 'self.do_post_bootstrap' in fs:
+            raise Undecided('bootstrap: _do_setup / do_post_bootstrap are not chained with addCallback here (coroutine form): order not decided by this rule')
     ok = 'self._do_setup' in names and 'self.do_post_bootstrap' in names and names.index('self._do_setup') < names.index('self.do_post_bootstrap')
     run.ob('R11.4', bs, bs.node, 'ready only after _do_setup', ok, slot='order', message='bootstrap chain is %s' % names)
     eb = [dotted(c.args[0]) for c in calls_in(bs) if callee_attr(c) == 'addErrback' and c.args]
@@ -701,6 +713,11 @@ def r11_9(run):
                         ok = 'parse' not in effs and 'default' not in effs
                         want = 'the value as it is'
                     islist = S or L or 'listify' in effs
+                    if 'other' in effs:
+                        # the value is rebound by something this rule has no reading for (a temporary of an inlined helper, a new
+                        # operation): what the leg does to the value is not known - not a finding
+                        run.undecide('R11.9', cc.qual, '_conf_changed list leg [%s]: the value is rebound by an operation the rule does not read (%s)' % (desc, effs))
+                        continue
                     ok = ok and islist and effs[-1] == 'wrap' and effs.count('wrap') == 1 and 'other' not in effs
                     run.ob('R11.9', cc, cc.node, 'list option in a change event [%s]: %s, as a list, wrapped' % (desc, want), ok, slot='list-leg:%s' % desc,
                            message='_conf_changed list leg [%s] does %s (wanted %s, a list, wrapped last)' % (desc, effs, want), path=p_.describe(10))
@@ -732,6 +749,9 @@ def _list_typed(v, g, n, listvars):
     return False
 
 
+_depth = [0]
+
+
 def must_be_list(g, site, name):
     """forward must-analysis over the CFG: at `site`, is `name` a list on every path?  Facts: assigned a list-typed expression;
     the true leg of isinstance(name, list); a value that survived `if not isinstance(name, list): name = [name]`."""
@@ -745,7 +765,15 @@ def must_be_list(g, site, name):
         cur = state[n.id]
         if n.kind == 'stmt' and isinstance(n.ast, (ast.Assign, ast.AugAssign)) and name in assigned_targets(n.ast) and lab != 'exc':
             if isinstance(n.ast, ast.Assign) and isinstance(n.ast.targets[0], ast.Name):
-                return _list_typed(n.ast.value, g, n, set([name]) if cur else set())
+                v_ = n.ast.value
+                if isinstance(v_, ast.Name) and v_.id != name and _depth[0] < 3:
+                    # a plain copy: a list exactly when the copied local is one here
+                    _depth[0] += 1
+                    try:
+                        return must_be_list(g, n, v_.id)
+                    finally:
+                        _depth[0] -= 1
+                return _list_typed(v_, g, n, set([name]) if cur else set())
             return False
         if n.kind in ('iter',) and isinstance(n.ast, ast.For) and name in [x.id for x in ast.walk(n.ast.target) if isinstance(x, ast.Name)]:
             return False
